@@ -82,3 +82,17 @@ pub fn sweep_dead_run_dirs() {
         }
     }
 }
+
+/// Is the address range mapped in this process? (mincore probe: lets a check turn "the memory behind a
+/// held reference was unmapped" into a reported failure instead of dying from SIGSEGV)
+pub fn mapped(addr: usize, len: usize) -> bool {
+    if len == 0 {
+        return true;
+    }
+    let page = 4096usize;
+    let first = addr & !(page - 1);
+    let span = (addr + len).div_ceil(page) * page - first;
+    let mut vec = vec![0u8; span / page];
+    let r = unsafe { libc::mincore(first as *mut libc::c_void, span, vec.as_mut_ptr()) };
+    r == 0
+}
